@@ -172,7 +172,7 @@ def r2_include_order(ctx):
                 continue
             n += 1
             effs = path_effects(inc, path)
-            pushes = [e for e in effs if e[0] == 'c' and e[1].name == 'std::vec::Vec::push' and receiver_field(e[2][0]) == 'cfgs']
+            pushes = [e for e in effs if e[0] == 'c' and e[1].name == 'std::vec::Vec::push' and any(x[0] == 'field' and x[2] == 'cfgs' for x in walk(e[2][0]))]
             ok = len(pushes) == 1 and any(x[0] == 'call' and x[1] == PR + 'yaml::Cfg::new' for x in walk(pushes[0][2][1]))
             ctx.check(ok, 'cfg-kept', 'every successfully parsed configuration is kept as its own entry for nodes created later (configurations are never folded into each other)',
                       inc.where_path(path), len(pushes))
